@@ -437,8 +437,8 @@ func (fn *fileNode) truncate(size int64) {
 // symlinkNode
 
 // delete removes all information from the node.
+// The link is kept : it is read without locking the node and never changes after the creation of the symbolic link.
 func (sn *symlinkNode) delete() {
-	sn.link = ""
 }
 
 // fillStatFrom returns a MemInfo (implementation of fs.FileInfo) from a symlinkNode named name.
